@@ -636,3 +636,27 @@ def gen_pingpong_case(rng: random.Random):
         beh.append({'type': types[i], 'self_steps': {}, 'outputs': outs, 'default_output': [None, base]})
     init = [[0, 0]] if types[0] == 'event-based' else []
     return dict(n=n, types=types, grp=grp, edges=edges, until=until, beh=beh, init=init, maxloop=bound, loop_len=1)
+
+
+def gen_sibling_reader_case(rng: random.Random):
+    """two sibling groups: in the first a same-time loop A -> B -> (weak) A that takes two or three iterations per time step
+    and refines A's persistent output in each; in the second a consumer C that reads that output over a plain connection
+    (it must see the value A has when it LEAVES the time step, whoever is fast or slow); a time-based simulator D at the top
+    level also feeds C, so that the moment C's turn comes varies with the schedule.  Dense outputs, no explicit output times."""
+    iters = rng.choice([2, 3])
+    until = rng.randint(2, 4)
+    types = ['hybrid', 'hybrid', rng.choice(['hybrid', 'time-based']), 'time-based']
+    grp = [[0], [0], [1], []]
+    edges = [dict(a=0, b=1, sa='eo', da='ti', kind='p', shift=0, init=False), dict(a=1, b=0, sa='eo', da='ti', kind='w', shift=0, init=False),
+             dict(a=0, b=2, sa='po', da='i', kind='p', shift=0, init=False), dict(a=3, b=2, sa='po', da='i', kind='p', shift=0, init=False)]
+    if rng.random() < 0.4: edges.append(dict(a=1, b=2, sa='po', da='i', kind='p', shift=0, init=False))
+    beh = []
+    for i in range(2):
+        outs = {f'{tt},{q}': [None, ['po', 'eo'] if q < iters - (1 if i == 1 else 0) else ['po']] for tt in range(until + 1) for q in range(iters + 2)}
+        beh.append({'type': 'hybrid', 'self_steps': {str(tt): tt + 1 for tt in range(until)}, 'outputs': outs, 'default_output': [None, ['po']]})
+    if types[2] == 'hybrid':
+        beh.append({'type': 'hybrid', 'self_steps': {str(tt): tt + 1 for tt in range(until)}, 'outputs': {f'{tt},0': [None, ['po']] for tt in range(until + 1)}, 'default_output': [None, ['po']]})
+    else:
+        beh.append({'type': 'time-based', 'step_size': 1, 'default_output': [None, ['po']]})
+    beh.append({'type': 'time-based', 'step_size': 1, 'default_output': [None, ['po']]})
+    return dict(n=4, types=types, grp=grp, edges=edges, until=until, beh=beh, init=[], maxloop=100)
